@@ -33,6 +33,7 @@ type c17Scenario struct {
 	Welcome    string    `json:"welcome"` // same, other
 	JoinChan   bool      `json:"join_chan"` // tracking: share a channel with other users
 	PlainWelcome bool    `json:"plain_welcome"` // the welcome text does not end in nick!user@host
+	LateGen    bool      `json:"late_generator"` // Config().NewNick is assigned after Client(), before Connect()
 	Steps      []c17Step `json:"steps"`
 }
 
@@ -67,6 +68,7 @@ func genC17(t *rapid.T) *c17Scenario {
 		Welcome:   rapid.SampledFrom([]string{"same", "same", "other"}).Draw(t, "welcome"),
 		JoinChan:  rapid.Bool().Draw(t, "join_chan"),
 		PlainWelcome: rapid.Bool().Draw(t, "plain_welcome"),
+		LateGen:      rapid.Bool().Draw(t, "late_generator"),
 	}
 	gen := c17Gen(sc.Generator)
 	// replay the model while generating so that names can be chosen relative to the current nick
@@ -133,11 +135,14 @@ func genC17(t *rapid.T) *c17Scenario {
 func runC17(sc *c17Scenario) *Violation {
 	gen := c17Gen(sc.Generator)
 	tc := newTestClient(cliOpts{Nick: sc.Nick, Flood: true, Tracking: sc.Tracking, Configure: func(cfg *client.Config) {
-		if sc.Generator != "default" {
+		if sc.Generator != "default" && !sc.LateGen {
 			cfg.NewNick = gen
 		}
 	}})
 	defer tc.shutdown()
+	if sc.Generator != "default" && sc.LateGen {
+		tc.C.Config().NewNick = gen
+	}
 	var mu sync.Mutex
 	var inConnected []string
 	tc.C.HandleFunc(client.CONNECTED, func(c *client.Conn, l *client.Line) {
